@@ -1040,6 +1040,58 @@ func rulePbNil(c *Ctx) {
 					if !isParam {
 						return true
 					}
+					// a helper that is only ever handed messages built by the server itself
+					// (`p := &pb.Promise{…}; fill(p, …)`): not a client pointer
+					if !isHandler {
+						idx := -1
+						for i := 0; i < sig.Params().Len(); i++ {
+							if sig.Params().At(i) == v {
+								idx = i
+							}
+						}
+						sites, fresh := 0, true
+						self := info.Defs[fd.Name]
+						for _, cfd := range allFuncDecls(pk) {
+							if cfd.Body == nil {
+								continue
+							}
+							cenv := newLocalEnv(pk, cfd, nil)
+							for _, call := range callsInDeep(cfd.Body) {
+								if calleeOf(info, call) != self || idx >= len(call.Args) {
+									continue
+								}
+								sites++
+								a := ast.Unparen(call.Args[idx])
+								if u, ok := a.(*ast.UnaryExpr); ok && u.Op == token.AND {
+									a = ast.Unparen(u.X)
+								}
+								isLit := false
+								if _, ok := a.(*ast.CompositeLit); ok {
+									isLit = true
+								}
+								if aid, ok := a.(*ast.Ident); ok {
+									ds := cenv.defs[info.Uses[aid]]
+									if len(ds) == 1 {
+										if as, ok := ds[0].(*ast.AssignStmt); ok && len(as.Rhs) == 1 {
+											r := ast.Unparen(as.Rhs[0])
+											if u, ok := r.(*ast.UnaryExpr); ok && u.Op == token.AND {
+												r = ast.Unparen(u.X)
+											}
+											if _, ok := r.(*ast.CompositeLit); ok {
+												isLit = true
+											}
+										}
+									}
+								}
+								if !isLit {
+									fresh = false
+								}
+							}
+						}
+						if sites > 0 && fresh {
+							return true
+						}
+					}
 				}
 			}
 			xs := exprString(base)
